@@ -337,7 +337,7 @@ func c18Jobs(tier string) []*SeqJob {
 		}
 		return guard(func() (string, string) { return bucketCase(ops[0], prec, idx, via) })
 	}
-	return []*SeqJob{scalar, bucket, c18SequenceJob(tier)}
+	return []*SeqJob{scalar, bucket, c18SequenceJob(tier), c18SharedReporterJob(tier)}
 }
 
 // c18SequenceJob: histories over one reporter (a cached name must not leak between buckets/histograms).
@@ -354,10 +354,11 @@ func c18SequenceJob(tier string) *SeqJob {
 		alphabet = append(alphabet, fmt.Sprintf("bucket %s (%v,%v] dur=%v", c.name, c.lo, c.hi, c.dur))
 	}
 	depth := tierInt(tier, 3, 4)
+	rate := float32(0)
 	exec := func(hist []int) (cl, det, key string, steps int) {
 		cl, det = guard(func() (string, string) {
 			st := &recStatter{}
-			rep := tstatsd.NewReporter(st, tstatsd.Options{})
+			rep := tstatsd.NewReporter(st, tstatsd.Options{SampleRate: rate})
 			for i, op := range hist {
 				c := calls[op]
 				var want string
@@ -369,8 +370,14 @@ func c18SequenceJob(tier string) *SeqJob {
 					want = c.name + "." + refValueBound(c.lo, 6) + "-" + refValueBound(c.hi, 6)
 				}
 				steps++
-				if len(st.calls) != i+1 || st.calls[i].name != want {
+				if len(st.calls) != i+1 {
+					return "not-exactly-one-client-call", fmt.Sprintf("configured rate %v: %d client calls after %d bucket reports (the client does the sampling; the reporter forwards every report)", rate, len(st.calls), i+1)
+				}
+				if st.calls[i].name != want {
 					return "bucket-stat-name-depends-on-history", fmt.Sprintf("call %d %s sent as %q, want %q", i, alphabet[op], st.calls[len(st.calls)-1].name, want)
+				}
+				if wr := map[bool]float32{true: 1, false: rate}[rate == 0]; st.calls[i].rate != wr {
+					return "client-call-differs", fmt.Sprintf("bucket report forwarded with rate %v, configured %v", st.calls[i].rate, rate)
 				}
 			}
 			return "", ""
@@ -379,9 +386,147 @@ func c18SequenceJob(tier string) *SeqJob {
 		return
 	}
 	j := &SeqJob{Property: "C18", Name: "bucket-call-histories"}
+	j.Run = func(ctx *SeqCtx) {
+		for _, r := range []float32{0, 0.1} {
+			rate = r
+			bfs(ctx, alphabet, depth, exec)
+			if ctx.viol != nil {
+				ctx.viol.Ops = append([]string{fmt.Sprint(r)}, ctx.viol.Ops...)
+				return
+			}
+		}
+	}
+	j.Replay = func(ops []string) (string, string) {
+		fmt.Sscan(ops[0], &rate)
+		c, d, _, _ := exec(opIndex(alphabet, ops[1:]))
+		return c, d
+	}
+	return j
+}
+
+// c18SharedReporterJob: two root scopes hand their values to ONE statsd reporter; histories of recording through
+// either, closing the first and report passes of the second. Whatever an open scope hands over on its pass or on
+// its Close results in exactly one client call - also after the other scope has been closed.
+func c18SharedReporterJob(tier string) *SeqJob {
+	alphabet := []string{"inc root1", "inc root2", "gauge root2", "timer root2", "hist root2", "close root1", "pass root2"}
+	depth := tierInt(tier, 4, 5)
+	exec := func(hist []int) (cl, det, key string, steps int) {
+		cl, det = guard(func() (string, string) {
+			st := &recStatter{}
+			rep := tstatsd.NewReporter(st, tstatsd.Options{})
+			r1, c1 := tally.NewRootScope(tally.ScopeOptions{Prefix: "one", Reporter: rep, OmitCardinalityMetrics: true}, 0)
+			r2, c2 := tally.NewRootScope(tally.ScopeOptions{Prefix: "two", Reporter: rep, OmitCardinalityMetrics: true}, 0)
+			want := map[string]int{}
+			pend1, pend2 := map[string]int{}, map[string]int{}
+			closed1 := false
+			v := int64(1)
+			flush := func(p map[string]int) {
+				for k, n := range p {
+					want[k] += n
+					delete(p, k)
+				}
+			}
+			for _, op := range hist {
+				steps++
+				v++
+				switch alphabet[op] {
+				case "inc root1":
+					r1.Counter("c").Inc(v)
+					if !closed1 {
+						pend1[fmt.Sprintf("Inc one.c %d", v)]++
+					}
+				case "inc root2":
+					r2.Counter("c").Inc(v)
+					pend2[fmt.Sprintf("Inc two.c %d", v)]++
+				case "gauge root2":
+					r2.Gauge("g").Update(float64(v))
+					for k := range pend2 {
+						if len(k) > 10 && k[:11] == "Gauge two.g" {
+							delete(pend2, k)
+						}
+					}
+					pend2[fmt.Sprintf("Gauge two.g %d", v)] = 1
+				case "timer root2":
+					r2.Timer("t").Record(time.Duration(v))
+					want[fmt.Sprintf("TimingDuration two.t %d", v)]++ // forwarded at once
+				case "hist root2":
+					r2.Histogram("h", tally.ValueBuckets{1000}).RecordValue(float64(v))
+					pend2["Inc two.h.-infinity-1000.000000 1"]++
+				case "close root1":
+					_ = c1.Close()
+					if !closed1 {
+						flush(pend1)
+					}
+					closed1 = true
+				case "pass root2":
+					tally.VerifReportOnce(r2)
+					// counter deltas of one metric are summed by the scope; the model keeps them apart, so fold
+					foldCounters(pend2)
+					flush(pend2)
+				}
+			}
+			_ = c2.Close()
+			foldCounters(pend2)
+			flush(pend2)
+			if !closed1 {
+				_ = c1.Close()
+				foldCounters(pend1)
+				flush(pend1)
+			}
+			got := map[string]int{}
+			for _, c := range st.calls {
+				switch c.method {
+				case "TimingDuration":
+					got[fmt.Sprintf("%s %s %d", c.method, c.name, int64(c.d))]++
+				default:
+					got[fmt.Sprintf("%s %s %d", c.method, c.name, c.i)]++
+				}
+			}
+			// (root1's counters recorded before its Close are folded as well)
+			if fmt.Sprint(foldAll(got)) != fmt.Sprint(foldAll(want)) {
+				return "values-of-a-second-scope-not-forwarded", fmt.Sprintf("%v: client calls %v, expected %v", histLabels(alphabet, hist), foldAll(got), foldAll(want))
+			}
+			return "", ""
+		})
+		key = fmt.Sprint(hist)
+		return
+	}
+	j := &SeqJob{Property: "C18", Name: "two-scopes-one-reporter"}
 	j.Run = func(ctx *SeqCtx) { bfs(ctx, alphabet, depth, exec) }
 	j.Replay = func(ops []string) (string, string) { c, d, _, _ := exec(opIndex(alphabet, ops)); return c, d }
 	return j
+}
+
+// foldCounters merges the pending increments of one counter into one expected delta (a scope sums them).
+func foldCounters(p map[string]int) {
+	sums := map[string]int64{}
+	for k, n := range p {
+		var name string
+		var v int64
+		if _, err := fmt.Sscanf(k, "Inc %s %d", &name, &v); err == nil && (name == "one.c" || name == "two.c") {
+			sums[name] += v * int64(n)
+			delete(p, k)
+		}
+	}
+	for name, v := range sums {
+		p[fmt.Sprintf("Inc %s %d", name, v)] = 1
+	}
+}
+
+// foldAll sums the values per method and stat name (how deltas are split over passes is not the point here).
+func foldAll(m map[string]int) map[string]int64 {
+	out := map[string]int64{}
+	for k, n := range m {
+		var method, name string
+		var v int64
+		if _, err := fmt.Sscanf(k, "%s %s %d", &method, &name, &v); err == nil {
+			if method == "Gauge" {
+				continue // judged by C02; only what must arrive exactly (sums of counters, timers, buckets) is compared
+			}
+			out[method+" "+name] += v * int64(n)
+		}
+	}
+	return out
 }
 
 // varintAlphabet: one int64 per encoded length and sign.
